@@ -1,4 +1,5 @@
 import RepeVerif.Lemmas.Fleet
+import RepeVerif.Props.C06
 import RepeVerif.Gen.Fleet
 /-!
 # C19 — Fleet calls retry only transport failures, boundedly, and recover afterwards
@@ -23,6 +24,11 @@ clause → theorem
 * what a dead cached client of each fleet yields is in its table ..... `C19.dead_client_error_retryable`   (F4)
 * a transport failure never leaves the node wedged ................... `C19.never_wedged`
 * … so a later attempt or call reconnects and succeeds ............... `C19.recovers`, `C19.recovers_after_any_history`
+* … and those kinds are exactly what the client model (C06) allows ... `C19.dead_kinds_from_client_model_blocking`,
+                                                                         `…_async`, `…_async_race`, `C19.dead_kinds_are_exactly_the_model_outcomes`
+* connection management (`connect_all`, `disconnect_all`, `reconnect_disconnected`) and `health_check`
+  keep the recovery guarantee ........................................ `C19.source_forms_management`, `C19.health_check_one_attempt_and_invalidates`,
+                                                                         `C19.connect_all_sound`, `C19.disconnect_reconnect`, `C19.recovers_after_any_operations`
 * broadcast addresses exactly the nodes carrying all requested tags .. `C19.broadcast_targets`
 * exactly one result per addressed node .............................. `C19.broadcast_one_result_each`
 
@@ -253,6 +259,158 @@ theorem recovers_after_any_history (P : Policy) (hP : P ∈ policies) (lf : Loop
 
 example : cacheAfter Gen.Fleet.loopJson .none
     [(Gen.Fleet.policy, 2, [.silent, .refused]), (Gen.Fleet.asyncPolicy, 1, [.malformed])] = .dead := by
+  decide
+
+/-! ### connection management and health check -/
+
+/-- Facts re-extracted from the source: both `health_check`s make one attempt and invalidate the client
+after any error; all four retry loops pass the *node's* timeout to the client call. -/
+theorem source_forms_management :
+    Gen.Fleet.healthForm = ⟨true, true⟩ ∧ Gen.Fleet.asyncHealthForm = ⟨true, true⟩ ∧
+    Gen.Fleet.nodeTimeout = true ∧ Gen.Fleet.asyncNodeTimeout = true := by decide
+
+/-- `health_check` makes at most one contact, reports healthy iff that attempt was answered with
+success, and an unhealthy verdict never leaves a client behind (in particular not a dead one): the
+next call reconnects. -/
+theorem health_check_one_attempt_and_invalidates (P : Policy) (c : Cache) (bs : List Behaviour) :
+    (healthStep P Gen.Fleet.healthForm c bs).2.1 ≤ 1 ∧
+    ((healthStep P Gen.Fleet.healthForm c bs).1 ≠ .ok → (healthStep P Gen.Fleet.healthForm c bs).2.2.1 = .none) ∧
+    (healthStep P Gen.Fleet.asyncHealthForm c bs).2.1 ≤ 1 ∧
+    ((healthStep P Gen.Fleet.asyncHealthForm c bs).1 ≠ .ok → (healthStep P Gen.Fleet.asyncHealthForm c bs).2.2.1 = .none) := by
+  rw [source_forms_management.1, source_forms_management.2.1]
+  have h : ∀ hf : HealthForm, hf = ⟨true, true⟩ →
+      (healthStep P hf c bs).2.1 ≤ 1 ∧ ((healthStep P hf c bs).1 ≠ .ok → (healthStep P hf c bs).2.2.1 = .none) := by
+    intro hf hhf; subst hhf
+    simp only [healthStep]
+    constructor
+    · split <;> simp
+    · intro hne
+      cases hr : (step P c bs).entry.reply with
+      | ok => exact absurd hr hne
+      | err e => simp
+  exact ⟨(h _ rfl).1, (h _ rfl).2, (h _ rfl).1, (h _ rfl).2⟩
+
+example : (healthStep Gen.Fleet.policy Gen.Fleet.healthForm .live [.malformed]).2.2.1 = .none := by decide
+
+/-- `connect_all` / `reconnect_disconnected` on one node: the node is reported connected iff its slot is
+occupied afterwards; it fails only if the slot was empty and the node refused; an occupied slot (even a
+dead client — that is what `never_wedged` is for) is left alone and no behaviour is consumed. -/
+theorem connect_all_sound (c : Cache) (bs : List Behaviour) :
+    ((connectStep c bs).1 = (connectStep c bs).2.1.connected) ∧
+    ((connectStep c bs).1 = false → c = .none ∧ ∃ r, bs = .refused :: r) ∧
+    (c ≠ .none → (connectStep c bs).2.1 = c ∧ (connectStep c bs).2.2 = bs) := by
+  cases c <;> cases bs with
+  | nil => simp [connectStep, Cache.connected]
+  | cons b r => cases b <;> simp [connectStep, Cache.connected]
+
+/-- `disconnect_all` empties the slot; `reconnect_disconnected` does not touch an occupied one. -/
+theorem disconnect_reconnect (P : Policy) (lf : LoopForm) (hf : HealthForm) (max : Nat) (st : LifeState) :
+    (lifeStep P lf hf max st .disconnectAll).2.2.cache = .none ∧
+    (st.cache ≠ .none → (lifeStep P lf hf max st .reconnect).2.2.cache = st.cache ∧
+                        (lifeStep P lf hf max st .reconnect).2.2.rest = st.rest) := by
+  refine ⟨rfl, fun h => ?_⟩
+  cases hc : st.cache with
+  | none => exact absurd hc h
+  | live => simp [lifeStep, hc]
+  | dead => simp [lifeStep, hc]
+
+/-- **Whatever management operations and calls were made before** (`connect_all`, `disconnect_all`,
+`reconnect_disconnected`, `health_check`, calls — any sequence, any node behaviours), once the node is
+healthy a call with two attempts succeeds, and with one attempt the second call at the latest. -/
+theorem recovers_after_any_operations (P : Policy) (hP : P ∈ policies) (lf : LoopForm) (hlf : lf ∈ loops)
+    (P0 : Policy) (hf : HealthForm) (max0 : Nat) (st : LifeState) (ops : List LifeOp) (max : Nat) (hmax : 1 ≤ max) :
+    let c := (lifeRun P0 lf hf max0 st ops).2.cache
+    (call P lf max c []).result = some .ok ∨
+      (call P lf max (call P lf max c []).cache []).result = some .ok := by
+  intro c
+  have hb : healthy [] := by intro b hb; cases hb
+  obtain ⟨h2, h1⟩ := recovers P hP lf hlf c [] hb
+  by_cases hm : 2 ≤ max
+  · exact .inl (h2 max hm).1
+  · obtain rfl : max = 1 := by omega
+    rcases h1 with h | ⟨_, h, _⟩
+    · exact .inl h
+    · exact .inr h
+
+example : (lifeRun Gen.Fleet.policy Gen.Fleet.loopJson Gen.Fleet.healthForm 2 ⟨.none, [.refused, .malformed], []⟩
+    [.connectAll, .connectAll, .health, .reconnect, .call]).2.cache = .live := by decide
+
+/-! ### composition with C06 (the multiplexing clients under the fleet)
+
+`Gen.Fleet.deadKinds` / `asyncDeadKinds` are extracted; why there are exactly those alternatives is a
+theorem of the client model (`Model/Mux.lean`, property C06): a call on a connection whose failure path
+has run returns `writeErr` (blocking: the write on the socket the response loop shut down) or `connErr`
+(async: the registration is refused), and a call racing with the failure path one of the two.  The two
+outcome classes are mapped to `io::ErrorKind`s: `writeErr` ↦ `BrokenPipe` (Linux: `EPIPE` after a local
+shutdown — trusted), `connErr` ↦ the kind of `connection_failed_error` (extracted `refusalKind`). -/
+
+/-- `io::ErrorKind` of a C06 outcome of a call on a failed connection. -/
+def kindOfDeadOutcome (refusal : Option IoKind) : Repe.Mux.Outcome → Option IoKind
+  | .writeErr => some .brokenPipe
+  | .connErr => refusal
+  | _ => none
+
+/-- **Blocking `Client` under `Fleet`.** In every reachable state of the client model whose failure
+path has finished (any interleaving of callers, reader and `fail_all_pending`), the next call returns an
+outcome whose error kind is a member of the extracted set `Gen.Fleet.deadKinds` and is retryable in
+`Fleet`'s table — so the fleet drops the dead client (`never_wedged`, `recovers`). Uses
+`C06.dead_connection_outcome` and `C06.dead_connection_outcome_by_client`. -/
+theorem dead_kinds_from_client_model_blocking (s : Repe.Mux.State)
+    (hs : Repe.Mux.Reachable Gen.Mux.blockingCfg s) (g : Nat) (hf : s.reader = .finished g) (c : Nat)
+    (hc : (s.calls c).pc = .idle) :
+    ∃ o k, ((Repe.Mux.run Gen.Mux.blockingCfg s [.alloc c, .register c, .write c, .cleanup c]).calls c).pc = .returned o ∧
+      kindOfDeadOutcome Gen.Fleet.refusalKind o = some k ∧ k ∈ Gen.Fleet.deadKinds ∧
+      Gen.Fleet.policy.retryable (.io k) = true := by
+  have h := C06.dead_connection_outcome Gen.Mux.blockingCfg (by decide) (by decide) (by decide) s hs g hf c hc
+  have hb : ¬ (Repe.Mux.FailStep.closeAndDrain ∈ Gen.Mux.blockingCfg.failOrder) := by decide
+  rw [if_neg hb] at h
+  exact ⟨.writeErr, .brokenPipe, h, rfl, by decide, by decide⟩
+
+/-- **`AsyncClient` under `AsyncFleet`**, settled case: the registration is refused; the kind of that
+refusal is in `Gen.Fleet.asyncDeadKinds` and retryable in `AsyncFleet`'s table. -/
+theorem dead_kinds_from_client_model_async (s : Repe.Mux.State)
+    (hs : Repe.Mux.Reachable Gen.Mux.asyncCfg s) (g : Nat) (hf : s.reader = .finished g) (c : Nat)
+    (hc : (s.calls c).pc = .idle) :
+    ∃ o k, ((Repe.Mux.run Gen.Mux.asyncCfg s [.alloc c, .register c, .write c, .cleanup c]).calls c).pc = .returned o ∧
+      kindOfDeadOutcome Gen.Fleet.asyncRefusalKind o = some k ∧ k ∈ Gen.Fleet.asyncDeadKinds ∧
+      Gen.Fleet.asyncPolicy.retryable (.io k) = true := by
+  have h := C06.dead_connection_outcome Gen.Mux.asyncCfg (by decide) (by decide) (by decide) s hs g hf c hc
+  have hb : Repe.Mux.FailStep.closeAndDrain ∈ Gen.Mux.asyncCfg.failOrder := by decide
+  rw [if_pos hb] at h
+  exact ⟨.connErr, .notConnected, h, by decide, by decide, by decide⟩
+
+/-- **The race.** A call that has not registered when the async client's reader does its last drain
+(it may be anywhere between "connection marked failed" and "writer shut down") returns `connErr` or
+`writeErr` (`C06.late_caller_fails`); both map into `Gen.Fleet.asyncDeadKinds` and both are retryable:
+the set has exactly the alternatives the client model allows, and whichever the scheduler picks, the
+fleet invalidates. -/
+theorem dead_kinds_from_client_model_async_race (s : Repe.Mux.State)
+    (hs : Repe.Mux.Reachable Gen.Mux.asyncCfg s) (hp : Repe.Mux.PostDrain s) (c : Nat)
+    (hpc : (s.calls c).pc = .active) (hreg : (s.calls c).reg = false) (hw : (s.calls c).wrote = false) :
+    ∃ o k, ((Repe.Mux.run Gen.Mux.asyncCfg s [.register c, .write c, .cleanup c]).calls c).pc = .returned o ∧
+      kindOfDeadOutcome Gen.Fleet.asyncRefusalKind o = some k ∧ k ∈ Gen.Fleet.asyncDeadKinds ∧
+      Gen.Fleet.asyncPolicy.retryable (.io k) = true := by
+  obtain ⟨o, ho, h⟩ := C06.late_caller_fails Gen.Mux.asyncCfg (by decide) (by decide) (by decide) s hs hp c hpc hreg hw
+  rcases ho with rfl | rfl
+  · exact ⟨.connErr, .notConnected, h, by decide, by decide, by decide⟩
+  · exact ⟨.writeErr, .brokenPipe, h, by decide, by decide, by decide⟩
+
+/-- Conversely every member of the extracted sets is the image of an outcome the client model allows. -/
+theorem dead_kinds_are_exactly_the_model_outcomes :
+    (∀ k ∈ Gen.Fleet.deadKinds, ∃ o, (o = .connErr ∨ o = .writeErr) ∧ kindOfDeadOutcome Gen.Fleet.refusalKind o = some k) ∧
+    (∀ k ∈ Gen.Fleet.asyncDeadKinds, ∃ o, (o = .connErr ∨ o = .writeErr) ∧ kindOfDeadOutcome Gen.Fleet.asyncRefusalKind o = some k) := by
+  refine ⟨?_, ?_⟩
+  · intro k hk
+    have : k = .brokenPipe := by revert k; decide
+    subst this; exact ⟨.writeErr, .inr rfl, rfl⟩
+  · intro k hk
+    have : k = .notConnected ∨ k = .brokenPipe := by revert k; decide
+    rcases this with rfl | rfl
+    · exact ⟨.connErr, .inl rfl, by decide⟩
+    · exact ⟨.writeErr, .inr rfl, rfl⟩
+
+/-- The hypotheses are met: the failure path of either client does finish. -/
+example : (Repe.Mux.run Gen.Mux.asyncCfg Repe.Mux.State.init (.readErr :: List.replicate 12 .failStep)).reader = .finished 0 := by
   decide
 
 /-! ### broadcast -/
